@@ -608,3 +608,351 @@ Proof.
   rewrite (hl_lines _ _ _ _ (lines_entries x Hx)), fold_entries.
   apply (hl_nodes (st_of x) rest).
 Qed.
+
+(** ** the validation accepts the state and yields [header_of x] *)
+
+Lemma check_permids_complete nvars : forall p seen,
+  Forall (fun l => l < nvars) p -> NoDup p -> (forall x, In x p -> ~ In x seen) ->
+  check_permids nvars p seen = HOk tt.
+Proof.
+  induction p as [|l p IH]; intros seen Hr Hn Hd; [reflexivity|]. cbn [check_permids].
+  inversion Hr; subst. inversion Hn; subst.
+  destruct (N.leb_spec nvars l); [lia|].
+  assert (E : existsb (N.eqb l) seen = false).
+  { destruct (existsb (N.eqb l) seen) eqn:E; [|reflexivity]. apply existsb_exists in E.
+    destruct E as (y & Hy & Ey). apply N.eqb_eq in Ey. subst y. exfalso. apply (Hd l); [left; reflexivity|exact Hy]. }
+  rewrite E. apply IH; [assumption..|].
+  intros x Hx [->|Hs]; [contradiction|]. apply (Hd x); [right; exact Hx|exact Hs].
+Qed.
+
+Lemma check_roots_complete nnodes : forall l,
+  Forall (fun r => r <> 0%Z /\ Z.abs_N r <= nnodes) l -> check_roots nnodes l = HOk tt.
+Proof.
+  induction 1 as [|r l [H0 Hr] _ IH]; [reflexivity|]. cbn [check_roots].
+  destruct (Z.eqb_spec r 0); [contradiction|]. destruct (N.ltb_spec nnodes (Z.abs_N r)); [lia|exact IH].
+Qed.
+
+Lemma combine_fst_snd {A B} (l : list (A * B)) : combine (map fst l) (map snd l) = l.
+Proof. induction l as [|[a b] l IH]; cbn; [reflexivity|]. rewrite IH. reflexivity. Qed.
+
+Lemma x_supp_combine x : combine (x_ids x) (x_permids x) = x_supp x.
+Proof. apply combine_fst_snd. Qed.
+
+Lemma supp_from_levels : forall vars v l, In l (map snd (supp_from v vars)) -> In l (map fst vars).
+Proof.
+  induction vars as [|[l' s] vars IH]; intros v l H; cbn [supp_from] in H; [destruct H|].
+  destruct s; [destruct H as [<-|H]; [left; reflexivity|]|]; right; eapply IH; exact H.
+Qed.
+
+Lemma supp_from_levels_nodup : forall vars v, NoDup (map fst vars) -> NoDup (map snd (supp_from v vars)).
+Proof.
+  induction vars as [|[l s] vars IH]; intros v H; cbn [supp_from]; [constructor|].
+  cbn in H. inversion H; subst. destruct s; [|apply IH; assumption].
+  cbn [map snd]. constructor; [|apply IH; assumption].
+  intros Hin. apply H2. eapply supp_from_levels. exact Hin.
+Qed.
+
+(** *** [support_var_order] = the support sorted by level *)
+
+Fixpoint ssorted (l : list (N * N)) : Prop :=
+  match l with
+  | [] => True
+  | p :: r => Forall (fun q => snd p < snd q) r /\ ssorted r
+  end.
+
+Lemma insert_perm p : forall l, Permutation (insert_by_level p l) (p :: l).
+Proof.
+  induction l as [|q l IH]; cbn; [apply Permutation_refl|].
+  destruct (snd p <? snd q); [apply Permutation_refl|].
+  eapply Permutation_trans; [apply perm_skip; exact IH|apply perm_swap].
+Qed.
+
+Lemma sort_perm l : Permutation (sort_by_level l) l.
+Proof.
+  induction l as [|p l IH]; cbn; [constructor|].
+  eapply Permutation_trans; [apply insert_perm|apply perm_skip; exact IH].
+Qed.
+
+Lemma insert_sorted p : forall l, ssorted l -> (forall q, In q l -> snd q <> snd p) -> ssorted (insert_by_level p l).
+Proof.
+  induction l as [|q l IH]; intros Hs Hd; cbn; [split; [constructor|exact I]|].
+  destruct Hs as [Hq Hs]. destruct (N.ltb_spec (snd p) (snd q)).
+  - split; [|split; assumption]. constructor; [exact H|]. eapply Forall_impl; [|exact Hq]. cbn. intros; lia.
+  - split; [|apply IH; [exact Hs|intros q' Hq'; apply Hd; right; exact Hq']].
+    eapply Permutation_Forall; [apply Permutation_sym, insert_perm|].
+    constructor; [|exact Hq]. specialize (Hd q (or_introl eq_refl)). lia.
+Qed.
+
+Lemma sort_sorted : forall l, NoDup (map snd l) -> ssorted (sort_by_level l).
+Proof.
+  induction l as [|p l IH]; intros H; cbn; [exact I|]. cbn in H. inversion H; subst.
+  apply insert_sorted; [apply IH; assumption|].
+  intros q Hq E. apply H2. rewrite <- E. apply in_map.
+  eapply Permutation_in; [apply sort_perm|exact Hq].
+Qed.
+
+Lemma rank_nat_perm a b l : Permutation a b -> rank_nat a l = rank_nat b l.
+Proof.
+  unfold rank_nat. induction 1; cbn; try lia.
+  - destruct (x <? l); cbn; lia.
+  - destruct (x <? l), (y <? l); cbn; lia.
+Qed.
+
+Lemma rank_nat_sorted : forall S k v l, ssorted S -> nth_error S k = Some (v, l) -> rank_nat (map snd S) l = k.
+Proof.
+  unfold rank_nat. induction S as [|q S IH]; intros [|k] v l Hs Hn; cbn in Hn; try discriminate.
+  - inversion Hn; subst. destruct Hs as [Hq _]. cbn. destruct (N.ltb_spec l l); [lia|].
+    assert (E : filter (fun x => x <? l) (map snd S) = []).
+    { clear -Hq. induction S as [|p S IH]; [reflexivity|]. inversion Hq; subst. cbn in *.
+      destruct (N.ltb_spec (snd p) l); [lia|]. apply IH. assumption. }
+    rewrite E. reflexivity.
+  - destruct Hs as [Hq Hs]. cbn. rewrite Forall_forall in Hq. specialize (Hq _ (nth_error_In _ _ Hn)). cbn in Hq.
+    destruct (N.ltb_spec (snd q) l); [|lia]. cbn. f_equal. eapply IH; eassumption.
+Qed.
+
+Lemma nth_error_ext {A} (a b : list A) : length a = length b ->
+  (forall k, (k < length a)%nat -> nth_error a k = nth_error b k) -> a = b.
+Proof.
+  revert b. induction a as [|x a IH]; intros [|y b] L H; cbn in L; try lia; [reflexivity|].
+  pose proof (H O ltac:(cbn; lia)) as H0. cbn in H0. inversion H0; subst. f_equal.
+  apply IH; [lia|]. intros k Hk. apply (H (S k)). cbn. lia.
+Qed.
+
+Lemma fill_order_sorted supp : NoDup (map snd supp) ->
+  fill_order supp (map snd supp) (repeat 0 (length supp)) = HOk (map fst (sort_by_level supp)).
+Proof.
+  intros Hnd.
+  destruct (fill_order_spec (map snd supp) supp (repeat 0 (length supp))) as (order & Hf & Lo & Ho & _).
+  - exact Hnd.
+  - intros v l H. apply in_map_iff. exists (v, l). auto.
+  - rewrite repeat_length, map_length. reflexivity.
+  - rewrite Hf. f_equal. rewrite repeat_length in Lo.
+    pose proof (Permutation_length (sort_perm supp)) as Ls.
+    apply nth_error_ext; [rewrite map_length; lia|].
+    intros k Hk. rewrite nth_error_map.
+    destruct (nth_error (sort_by_level supp) k) as [[v l]|] eqn:E; [|apply nth_error_None in E; lia].
+    cbn [option_map fst].
+    rewrite <- (rank_nat_sorted _ _ _ _ (sort_sorted _ Hnd) E).
+    rewrite <- (rank_nat_perm (map snd supp) (map snd (sort_by_level supp)) l)
+      by (apply Permutation_map, Permutation_sym, sort_perm).
+    apply Ho. eapply Permutation_in; [apply sort_perm|]. eapply nth_error_In. exact E.
+Qed.
+
+(** *** names *)
+
+Lemma bytes_eqb_refl a : bytes_eqb a a = true.
+Proof. induction a as [|x a IH]; cbn; [reflexivity|]. rewrite N.eqb_refl. exact IH. Qed.
+
+Lemma nth_name_name_of names v : (N.to_nat v < length names)%nat -> nth_name names v = HOk (name_of names v).
+Proof.
+  intros H. unfold nth_name, name_of. rewrite (nth_error_nth' names [] H). reflexivity.
+Qed.
+
+Lemma check_supp_complete names : forall ids,
+  Forall (fun v => (N.to_nat v < length names)%nat) ids ->
+  check_supp (combine (map (name_of names) ids) ids) names = HOk tt.
+Proof.
+  induction 1 as [|v ids Hv _ IH]; [reflexivity|]. cbn [map combine check_supp].
+  rewrite nth_name_name_of by exact Hv. cbn [hbind]. rewrite bytes_eqb_refl. exact IH.
+Qed.
+
+(** a list that agrees with [names] on the given positions *)
+Lemma check_supp_agree names r : forall ids,
+  Forall (fun v => nth_error r (N.to_nat v) = Some (name_of names v)) ids ->
+  check_supp (combine (map (name_of names) ids) ids) r = HOk tt.
+Proof.
+  induction 1 as [|v ids Hv _ IH]; [reflexivity|]. cbn [map combine check_supp].
+  unfold nth_name. rewrite Hv. cbn [hbind]. rewrite bytes_eqb_refl. exact IH.
+Qed.
+
+Lemma check_ordered_complete names ordered : forall pairs,
+  Forall (fun p => (N.to_nat (fst p) < length names)%nat /\
+                   nth_error ordered (N.to_nat (snd p)) = Some (name_of names (fst p))) pairs ->
+  check_ordered pairs names ordered = HOk tt.
+Proof.
+  induction 1 as [|[id pm] pairs [Hv Ho] _ IH]; [reflexivity|]. cbn [check_ordered]. cbn [fst snd] in *.
+  rewrite nth_name_name_of by exact Hv. cbn [hbind]. unfold nth_name. rewrite Ho. cbn [hbind].
+  rewrite bytes_eqb_refl. exact IH.
+Qed.
+
+(** what [take_names] puts where *)
+Lemma take_names_content : forall pairs v o v' o',
+  take_names pairs v o = HOk (v', o') ->
+  NoDup (map fst pairs) -> NoDup (map snd pairs) ->
+  (forall id pm, In (id, pm) pairs -> nth_error v' (N.to_nat id) = nth_error o (N.to_nat pm)) /\
+  (forall m, (forall id pm, In (id, pm) pairs -> N.to_nat id <> m) -> nth_error v' m = nth_error v m).
+Proof.
+  induction pairs as [|[id pm] pairs IH]; intros v o v' o' H N1 N2; cbn [take_names] in H.
+  - inversion H; subst. split; [intros id pm []|reflexivity].
+  - apply hbind_ok in H. destruct H as (name & Hn & H).
+    destruct (set_nth (N.to_nat pm) [] o) as [o1|] eqn:Eo; [|discriminate].
+    destruct (set_nth (N.to_nat id) name v) as [v1|] eqn:Ev; [|discriminate].
+    cbn in N1, N2. inversion N1 as [|? ? Hn1 N1']; subst. inversion N2 as [|? ? Hn2 N2']; subst.
+    destruct (IH _ _ _ _ H N1' N2') as [Hc Hk].
+    destruct (set_nth_spec _ _ _ _ Eo) as (_ & _ & _ & Oo).
+    destruct (set_nth_spec _ _ _ _ Ev) as (_ & Nv & _ & Ov).
+    unfold nth_name in Hn. destruct (nth_error o (N.to_nat pm)) as [nm|] eqn:En; [|discriminate].
+    inversion Hn; subst nm.
+    split.
+    + intros id' pm' [E|Hin].
+      * inversion E; subst. rewrite Hk; [rewrite Nv, En; reflexivity|].
+        intros id2 pm2 Hi2 E2. apply Hn1. apply in_map_iff. exists (id2, pm2). split; [cbn; lia|exact Hi2].
+      * rewrite (Hc _ _ Hin). apply Oo. intros E2. apply Hn2. apply in_map_iff.
+        exists (id', pm'). split; [cbn; lia|exact Hin].
+    + intros m Hm. rewrite Hk; [apply Ov; intros E; apply (Hm id pm); [left; reflexivity|lia]|].
+      intros id2 pm2 Hi2. apply (Hm id2 pm2). right; exact Hi2.
+Qed.
+
+Lemma fill_names_content : forall v pool r, fill_names v pool = HOk r ->
+  forall m n, nth_error v m = Some n -> n <> [] -> nth_error r m = Some n.
+Proof.
+  induction v as [|a v IH]; intros pool r H m n Hn Hne; [destruct m; discriminate|].
+  cbn [fill_names] in H. destruct a as [|c a].
+  - destruct pool as [|q pool]; [discriminate|]. apply hmap_ok in H. destruct H as (r' & H & ->).
+    destruct m as [|m]; cbn in Hn; [inversion Hn; subst; contradiction|]. cbn. eapply IH; eassumption.
+  - apply hmap_ok in H. destruct H as (r' & H & ->).
+    destruct m as [|m]; cbn in Hn |- *; [exact Hn|]. eapply IH; eassumption.
+Qed.
+
+(** *** the main lemma *)
+
+Lemma len_map {A B} (f : A -> B) l : len (map f l) = len l.
+Proof. unfold len. rewrite map_length. reflexivity. Qed.
+
+Lemma x_ids_len x : len (x_ids x) = len (x_supp x).
+Proof. apply len_map. Qed.
+Lemma x_permids_len x : len (x_permids x) = len (x_supp x).
+Proof. apply len_map. Qed.
+
+Lemma supp_l2v x : xwf x -> forall id pm, In (id, pm) (x_supp x) ->
+  nth_error (x_l2v x) (N.to_nat pm) = Some id /\ id < x_nvars x /\ pm < x_nvars x.
+Proof.
+  intros Hx id pm H. apply supp_from_spec in H. cbn [fst snd] in H. destruct H as (i & Hi & E).
+  rewrite N.add_0_l in E. subst id. splits.
+  - eapply xw_l2v; eassumption.
+  - assert (i < length (x_vars x))%nat by (apply nth_error_Some; congruence). unfold x_nvars, len. lia.
+  - pose proof (xw_levels x Hx) as Hl. rewrite Forall_forall in Hl.
+    apply (Hl (pm, true)). eapply nth_error_In. exact Hi.
+Qed.
+
+Lemma var_names_block_print x : xwf x ->
+  var_names_block (x_nvars x) (x_ids x) (x_permids x) (s_varnames (st_of x)) (s_suppnames (st_of x)) (s_ordered (st_of x))
+  = HOk (h_varnames (header_of x)).
+Proof.
+  intros Hx. unfold st_of, header_of. cbn [s_varnames s_suppnames s_ordered h_varnames].
+  pose proof (xw_names x Hx) as Hn. destruct (x_names x) as [names|]; [|reflexivity].
+  destruct Hn as [Hlen Hgood]. unfold len in Hlen.
+  pose proof (x_ids_range x Hx) as Hids. pose proof (xw_l2v_len x Hx) as Hl2v. unfold len in Hl2v.
+  assert (Hidn : Forall (fun v => (N.to_nat v < length names)%nat) (x_ids x)).
+  { eapply Forall_impl; [|exact Hids]. cbn. intros; lia. }
+  assert (Hord : forall id pm, In (id, pm) (x_supp x) ->
+           nth_error (map (name_of names) (x_l2v x)) (N.to_nat pm) = Some (name_of names id)).
+  { intros id pm H. destruct (supp_l2v x Hx id pm H) as (H1 & _ & _). rewrite nth_error_map, H1. reflexivity. }
+  destruct (Nat.eq_dec (length (x_l2v x)) 0) as [E0|E0].
+  - (* no variables at all *)
+    assert (El2v : x_l2v x = []) by (apply length_zero_iff_nil; exact E0).
+    assert (Hv0 : x_vars x = []).
+    { unfold x_nvars, len in Hl2v. rewrite E0 in Hl2v. destruct (x_vars x); [reflexivity|cbn in Hl2v; lia]. }
+    assert (names = []) by (unfold x_nvars, len in Hlen; rewrite Hv0 in Hlen; destruct names; [reflexivity|cbn in Hlen; lia]).
+    subst names. unfold recover_names, x_ids, x_permids, x_supp, x_nvars. rewrite Hv0, El2v.
+    destruct (x_ver3 x); reflexivity.
+  - assert (Hnv : 0 < x_nvars x) by lia.
+    assert (Hordne : is_nil (map (name_of names) (x_l2v x)) = false).
+    { destruct (x_l2v x); [cbn in E0; lia|reflexivity]. }
+    destruct (x_ver3 x).
+    + (* 3.0: .varnames is there *)
+      unfold var_names_block. destruct names as [|n0 names']; [cbn in Hlen; lia|].
+      set (names := n0 :: names') in *. cbn [is_nil].
+      assert (E : (len names =? x_nvars x) = true) by (apply N.eqb_eq; unfold len; exact Hlen).
+      rewrite E. cbn [guard hbind]. rewrite Hordne.
+      rewrite check_ordered_complete.
+      * cbn [hbind]. rewrite check_supp_complete by exact Hidn. reflexivity.
+      * rewrite x_supp_combine. apply Forall_forall. intros [id pm] H. cbn [fst snd]. split.
+        -- destruct (supp_l2v x Hx id pm H) as (_ & H2 & _). lia.
+        -- apply Hord. exact H.
+    + (* 2.0: the names are rebuilt from .orderedvarnames *)
+      unfold var_names_block. cbn [is_nil]. rewrite Hordne. unfold recover_names.
+      assert (N1 : NoDup (map fst (combine (x_ids x) (x_permids x)))).
+      { rewrite x_supp_combine. apply incr_NoDup. apply sorted_strict_incr. apply supp_from_sorted. }
+      assert (N2 : NoDup (map snd (combine (x_ids x) (x_permids x)))).
+      { rewrite x_supp_combine. apply supp_from_levels_nodup. apply Hx. }
+      assert (Hgo : Forall good_name (map (name_of names) (x_l2v x))).
+      { rewrite Forall_map. eapply Forall_impl; [|apply (x_l2v_range x Hx)]. intros v Hv.
+        apply name_of_good; [exact Hgood|]. cbv beta in Hv. lia. }
+      destruct (take_names_spec (N.to_nat (x_nvars x)) (combine (x_ids x) (x_permids x))
+                  (repeat [] (N.to_nat (x_nvars x))) (map (name_of names) (x_l2v x)))
+        as (v1 & o1 & Ht & L1 & L2 & C).
+      * apply repeat_length.
+      * rewrite map_length. lia.
+      * intros id pm H. rewrite x_supp_combine in H. destruct (supp_l2v x Hx id pm H) as (_ & H2 & H3). lia.
+      * exact N1.
+      * intros id pm H. apply nth_error_repeat. rewrite x_supp_combine in H.
+        destruct (supp_l2v x Hx id pm H) as (_ & H2 & _). lia.
+      * rewrite count_repeat_emp. unfold nemp. rewrite count_all; [rewrite map_length; lia|].
+        eapply Forall_impl; [|exact Hgo]. intros [|c s] [H _]; [contradiction|reflexivity].
+      * rewrite Ht. cbn [hbind].
+        destruct (fill_names_spec v1 (filter (fun s => negb (is_nil s)) o1) C) as (r & Hf & Lr).
+        rewrite Hf. cbn [hbind].
+        rewrite check_supp_agree; [reflexivity|].
+        destruct (take_names_content _ _ _ _ _ Ht N1 N2) as [Hc _].
+        apply Forall_forall. intros id Hid.
+        assert (exists pm, In (id, pm) (x_supp x)) as [pm Hp].
+        { unfold x_ids in Hid. apply in_map_iff in Hid. destruct Hid as ([a b] & <- & H). exists b. exact H. }
+        eapply fill_names_content; [exact Hf| |].
+        -- rewrite (Hc id pm) by (rewrite x_supp_combine; exact Hp). apply Hord. exact Hp.
+        -- destruct (supp_l2v x Hx id pm Hp) as (_ & H2 & _).
+           apply (name_of_good names id Hgood). lia.
+Qed.
+
+Lemma is_nil_or {A} (l : list A) b : (l <> [] -> b = true) -> is_nil l || b = true.
+Proof. destruct l; [reflexivity|]. intros H. cbn. apply H. discriminate. Qed.
+
+Theorem validate_print x : xwf x -> validate (st_of x) = HOk (header_of x).
+Proof.
+  intros Hx. unfold validate.
+  pose proof (var_names_block_print x Hx) as Hvn.
+  assert (Hsupp : len (x_supp x) <= x_nvars x).
+  { pose proof (supp_from_length (x_vars x) 0). unfold x_supp, x_nvars, len. lia. }
+  assert (G1 : (s_nsupp (st_of x) <=? s_nvars (st_of x)) = true) by (apply N.leb_le; exact Hsupp).
+  assert (G2 : (len (s_ids (st_of x)) =? s_nsupp (st_of x)) = true) by (apply N.eqb_eq; apply x_ids_len).
+  assert (G3 : (len (s_permids (st_of x)) =? s_nsupp (st_of x)) = true) by (apply N.eqb_eq; apply x_permids_len).
+  assert (G5 : sorted_strict (s_ids (st_of x)) = true) by apply supp_from_sorted.
+  assert (G6 : is_nil (s_ids (st_of x)) || (last (s_ids (st_of x)) 0 <? s_nvars (st_of x)) = true).
+  { apply is_nil_or. intros Hne. apply N.ltb_lt. cbn [st_of s_ids s_nvars] in *.
+    pose proof (x_ids_range x Hx) as Hr. rewrite Forall_forall in Hr. apply Hr.
+    destruct (exists_last Hne) as (l' & a & ->). rewrite last_last. apply in_or_app. right. left. reflexivity. }
+  assert (G7 : check_permids (s_nvars (st_of x)) (s_permids (st_of x)) [] = HOk tt).
+  { apply check_permids_complete; [apply (x_permids_range x Hx)|apply supp_from_levels_nodup; apply Hx|intros ? _ []]. }
+  assert (G8 : fill_order (combine (s_ids (st_of x)) (s_permids (st_of x))) (s_permids (st_of x))
+                 (repeat 0 (N.to_nat (s_nsupp (st_of x)))) = HOk (h_order (header_of x))).
+  { cbn [st_of s_ids s_permids s_nsupp header_of h_order]. rewrite x_supp_combine. unfold len. rewrite Nat2N.id.
+    apply fill_order_sorted. apply supp_from_levels_nodup. apply Hx. }
+  assert (G9 : is_nil (s_ordered (st_of x)) || (len (s_ordered (st_of x)) =? s_nvars (st_of x)) = true).
+  { cbn [st_of s_ordered s_nvars]. destruct (x_names x); [|reflexivity]. apply is_nil_or. intros _.
+    apply N.eqb_eq. rewrite len_map. apply Hx. }
+  assert (G10 : is_nil (s_suppnames (st_of x)) || (len (s_suppnames (st_of x)) =? s_nsupp (st_of x)) = true).
+  { cbn [st_of s_suppnames s_nsupp]. destruct (x_names x); [|reflexivity]. apply is_nil_or. intros _.
+    apply N.eqb_eq. rewrite len_map. apply x_ids_len. }
+  assert (G12 : (len (s_rootids (st_of x)) =? s_nroots (st_of x)) = true) by apply N.eqb_refl.
+  assert (G13 : check_roots (s_nnodes (st_of x)) (s_rootids (st_of x)) = HOk tt).
+  { apply check_roots_complete. eapply Forall_impl; [|apply (xw_rootids x Hx)]. cbn. tauto. }
+  assert (G14 : is_nil (s_rootnames (st_of x)) || (len (s_rootnames (st_of x)) =? s_nroots (st_of x)) = true).
+  { cbn [st_of s_rootnames s_nroots]. pose proof (xw_rootnames x Hx) as Hr.
+    destruct (x_rootnames x) as [rn|]; [|reflexivity]. apply is_nil_or. intros _. apply N.eqb_eq. unfold len. destruct Hr as [-> _]. reflexivity. }
+  rewrite G1, G2, G3. cbn [guard hbind].
+  change (is_nil (s_auxids (st_of x))) with true. cbn [orb guard hbind].
+  rewrite G5, G6. cbn [guard hbind]. rewrite G7. cbn [hbind]. rewrite G8. cbn [hbind].
+  rewrite G9, G10. cbn [guard hbind].
+  change (s_nvars (st_of x)) with (x_nvars x). change (s_ids (st_of x)) with (x_ids x).
+  change (s_permids (st_of x)) with (x_permids x). rewrite Hvn. cbn [hbind].
+  rewrite G12. cbn [guard hbind]. rewrite G13. cbn [hbind]. rewrite G14. cbn [guard hbind].
+  reflexivity.
+Qed.
+
+(** ** [load_header] reads back [print_header] *)
+
+Theorem load_print_header x rest : xwf x -> load_header (print_header x ++ rest) = HOk (header_of x, rest).
+Proof.
+  intros Hx. unfold load_header. rewrite (header_loop_print x rest Hx). cbn [hbind].
+  rewrite (validate_print x Hx). reflexivity.
+Qed.
